@@ -132,6 +132,9 @@ def _gen_cases(rng, n):
         if k % 12 == 11:
             # one conv module applied to the outputs of two different producers (siamese branches)
             desc = mc.gen_siamese_desc(rng)
+        elif k % 12 == 2:
+            # one conv module invoked twice whose results feed different sums
+            desc = mc.gen_split_reuse_desc(rng)
         elif k % 12 == 5:
             # one conv module invoked at two resolutions on tensors of one producer
             desc = mc.gen_reuse_desc(rng)
@@ -156,6 +159,8 @@ def _judge(chk, case, res):
         key = _key(res['class'], what, bool(case['cfg'].get('ties')))
         if case['desc'].get('siamese'):
             key += ':reused-layer:call-sites-on-different-producers'
+        if case['desc'].get('split'):
+            key += ':reused-layer:call-sites-in-different-components'
         if what in ('output', 'exception') and any(mc._opts(i).get('pm', 'zeros') != 'zeros' for i in case['desc']['prog']
                                                    if i[0] in ('conv', 'dw')):
             key += ':non-zero-padding-mode'
@@ -211,7 +216,7 @@ def run(chk):
                            'dilation:%d' % o_.get('dil', 1), 'stride:%d' % ins[4 if ins[0] == 'conv' else 3]):
                     chk.hist[hk] = chk.hist.get(hk, 0) + 1
         chk.hist['train_first=%d' % case['train_first']] = chk.hist.get('train_first=%d' % case['train_first'], 0) + 1
-        rk = 'reuse:' + ('siamese' if case['desc'].get('siamese') else ('one-producer' if any(i[0] == 'reuse' for i in case['desc']['prog']) else 'none'))
+        rk = 'reuse:' + ('split-sums' if case['desc'].get('split') else 'siamese' if case['desc'].get('siamese') else ('one-producer' if any(i[0] == 'reuse' for i in case['desc']['prog']) else 'none'))
         chk.hist[rk] = chk.hist.get(rk, 0) + 1
         chk.hist['T=%s' % case['cfg']['T']] = chk.hist.get('T=%s' % case['cfg']['T'], 0) + 1
         chk.hist['gumbel=%d' % case['cfg']['gumbel']] = chk.hist.get('gumbel=%d' % case['cfg']['gumbel'], 0) + 1
